@@ -165,7 +165,7 @@ def run(cx, rep):
                     if m2 and m2.group(1) in KIND_FAMILY and gid.endswith("convert_to_sem_type"):
                         # top-level arms of the conversion: builder.tuple / mapping_definition / map / set
                         n_regions += check_region(rep, F, f, "arm RuntypeKind::%s" % m2.group(1), KIND_FAMILY[m2.group(1)], a["body"], a["line"])
-    rep.floor("C05.2", "family-selected regions with family mentions", n_regions, 20)
+    rep.floor("C05.2", "family-selected regions with family mentions", n_regions, 8)
 
     # ---------------------------------------------------------------- C05.3
     rep.rule("C05.3", "memo typestate of the emptiness entry points: lookup, Undefined => IsEmpty, insert before recursion, same key updated")
@@ -249,10 +249,16 @@ def run(cx, rep):
                             fld[bnd.get("lid")] = fl["name"]
         def lids(e):
             return [x.get("lid") for x in walk(e) if x["k"] == "Path" and x.get("res") == "local"]
-        recs = [n for n in walk(tree["body"]) if n["k"] == "Call" and F._callee_gid(f.crate, n.get("callee") or "") == f.id]
+        # the recursive calls, as plain calls or as method calls on the walk's own context struct (arguments are
+        # taken in parameter order either way)
+        def full_args(n):
+            return ([n["recv"]] if n["k"] == "MethodCall" else []) + list(n["args"])
+        recs = [n for n in walk(tree["body"]) if (n["k"] == "Call" and F._callee_gid(f.crate, n.get("callee") or "") == f.id)
+                or (n["k"] == "MethodCall" and F._callee_gid(f.crate, n.get("resolved") or n.get("callee") or "") == f.id)]
         seen = {}
-        for c in recs:
-            which = ([fld[l] for l in lids(c["args"][0]) if l in fld] or ["?"])[0]
+        for c0 in recs:
+            c = {"args": full_args(c0)}
+            which = ([fld[l] for a_ in c["args"] for l in lids(a_) if fld.get(l) in ("left", "middle", "right")] or ["?"])[0]
             def ext(a, base):
                 ls = lids(a)
                 calls = [x for x in walk(a) if x["k"] == "Call" and x is not a or x["k"] == "Call"]
@@ -328,12 +334,113 @@ def run(cx, rep):
         hits = scratch_rule(cx.canary, None, None, lambda f: True, collect=True)
         rep.ob("C05.6", "control/canary-scratch", any("backtrack_shared" in h for h in hits) and not any("backtrack_fresh" in h or "backtrack_restored" in h for h in hits),
                "positive control: the canary crate's shared scratch buffer must be reported and its fresh / restored twins must not (reported: %s)" % hits, "canary/rs/src/lib.rs")
+    # ---------------------------------------------------------------- C05.8
+    rep.rule("C05.8", "a computed difference / intersection that is stored into the fragment checked next is stored on every path")
+    engine = lambda f: (f.file or "").endswith(("subtyping/bdd.rs", "subtyping/mapping.rs", "subtyping/subtype.rs", "subtyping/semtype.rs"))
+    n68 = fragment_store_rule(F, rep, "C05.8", engine)
+    rep.floor("C05.8", "set-operation results stored before a recursive call", n68, 2)
+    if cx.canary is not None:
+        hits = fragment_store_rule(cx.canary, None, None, lambda f: True, collect=True)
+        rep.ob("C05.8", "control/canary-conditional-store", any("fragment_conditional" in h for h in hits) and not any("fragment_unconditional" in h for h in hits),
+               "positive control: the canary crate's conditional store (entry().and_modify) must be reported and its unconditional twin must not (reported: %s)" % hits, "canary/rs/src/lib.rs")
     # ---------------------------------------------------------------- C05.7
     rep.rule("C05.7", "twin procedures of the subtyping engine agree (exact / open, number / string, list / set, map / mapping)")
     import twins
     twins.twin_rule(cx, rep, "C05.7", r"subtyping/(mapping|semtype|subtype|bdd|dnf|mod)\.rs", floor=8)
 
 
+SETOPS = re.compile(r"::(diff|intersect|union|complement)$")
+
+
+def fragment_store_rule(F, rep, rid, select, collect=False):
+    """The emptiness procedures split `pos \\ neg` dimension by dimension: for a key / position they compute
+    d = pos[k] \\ neg[k] and, when d is inhabited, recurse on the fragment `pos with k := d`.  The recursion is only
+    the formula written down if d really is stored into the fragment: a store that happens on some paths only (a
+    closure handed to `Entry::and_modify`, an `if let Some(slot) = get_mut(..)`) leaves the old, wider value in place
+    for some inputs and the procedure answers `not empty` (not assignable) for pairs that are.
+    Decided per function of the engine that calls itself (or its SCC): for every named local d that is the result of a
+    set operation (diff / intersect / union / complement) and is MOVED somewhere on a path to a recursive call that its
+    definition dominates, every path from the definition to that call passes a block where d is moved directly into a
+    call argument, an aggregate or a place - moving it into a closure does not count, the closure need not run."""
+    import collections as _c
+    hits = []
+    n = 0
+    sccs = [c for c in F.sccs(list(F.fns)) if len(c) > 1 or c[0] in F.edges.get(c[0], ())]
+    scc_of = {g: i for i, c in enumerate(sccs) for g in c}
+    for g in sorted(scc_of):
+        f = F.fns[g]
+        if not f.mir or not select(f) or f.kind == "Closure":
+            continue
+        rec_calls = [c for c in f.calls if any(scc_of.get(t) == scc_of[g] for t in (c.local_target or []))]
+        if not rec_calls:
+            continue
+        flow = FnFlow(f)
+        O = Origins(flow)
+        dom = flow.dominators()
+        locs = f.mir["locals"]
+        for D, l in enumerate(locs):
+            if not l.get("name") or (l.get("ty") or "").startswith("&"):
+                continue
+            defs = flow.defs_of(D)
+            if len(defs) != 1:
+                continue
+            if not any(o[0] == "call" and SETOPS.search(strip_generics(o[1])) for o in O.of_local(D)):
+                continue
+            dbb = defs[0][0]
+            A = {a for a in flow.alias_closure({D}) if not (locs[a].get("ty") or "").startswith("&")}
+            store, closure = set(), set()
+            for bi, b in enumerate(flow.blocks):
+                for st in b["stmts"]:
+                    if st["k"] != "Assign":
+                        continue
+                    rv = st["rv"]
+                    ops = rv.get("ops") if rv["k"] == "Aggregate" else ([rv.get("op")] if rv["k"] in ("Use", "Cast") else [])
+                    for o in ops or []:
+                        pl = op_place(o) if o else None
+                        if pl is not None and pl["l"] in A and not pl["p"] and o.get("k") == "move":
+                            if rv["k"] == "Aggregate" and rv.get("agg") == "Closure":
+                                closure.add(bi)
+                            elif rv["k"] == "Aggregate" or st["place"]["p"] or st["place"]["l"] not in A:
+                                # into a struct / tuple, through a projection (*slot = d, x.f = d) or into another local that is not a plain alias
+                                if st["place"]["l"] not in A:
+                                    store.add(bi)
+                t = b["term"]
+                if t["k"] == "Call":
+                    m = (t["callee"].get("path") or "").rsplit("::", 1)[-1]
+                    if m in PASS_THROUGH_NAMES:
+                        continue
+                    for o in t["args"]:
+                        pl = op_place(o)
+                        if pl is not None and pl["l"] in A and not pl["p"] and o.get("k") == "move":
+                            store.add(bi)
+            if not store and not closure:
+                continue
+            for c in rec_calls:
+                if dbb not in dom.get(c.bb, ()) or dbb == c.bb:
+                    continue
+                reach_c = flow.reachable_from(dbb)
+                if c.bb not in reach_c:
+                    continue
+                # is d consumed at all on the way to this call?
+                on_way = [b for b in (store | closure) if b in reach_c and c.bb in flow.reachable_from(b)]
+                if not on_way:
+                    continue
+                n += 1
+                avoid = flow.reachable_from(dbb, stop=store)
+                bad = c.bb in avoid and c.bb not in store
+                key = "%s/%s->%s" % (f.id.rsplit("::", 1)[-1], l["name"], strip_generics(c.path).rsplit("::", 1)[-1])
+                if collect:
+                    if bad:
+                        hits.append(f.id)
+                    continue
+                rep.ob(rid, key, not bad,
+                       "%s: `%s` (the result of a set operation) is stored into the fragment handed to the recursive call %s on some paths only%s: for the inputs that take the other path the old value stays in place and the procedure decides a different formula (pairs that are assignable are reported as not assignable, or the reverse)" % (
+                           f.id, l["name"], c.path, " (it is moved into a closure, which the callee need not run)" if closure else ""),
+                       "%s:%s" % (f.file, c.line), sample={"fn": f.id, "local": l["name"], "store_blocks": sorted(store), "closure_blocks": sorted(closure), "call_bb": c.bb})
+    return hits if collect else n
+
+
+PASS_THROUGH_NAMES = {"deref", "borrow", "as_ref", "clone", "branch", "from_residual", "into", "from", "unwrap", "expect", "drop"}
 MUTATORS = {"push", "insert", "extend", "clear", "remove", "pop", "truncate", "swap", "sort", "retain", "append", "drain", "push_str"}
 VIEW = {"deref", "deref_mut", "as_mut_slice", "as_slice", "borrow_mut", "as_mut", "index_mut", "get_mut", "iter_mut"}
 
